@@ -263,6 +263,11 @@ func (f *FSM) MustCopyWithState(state State) *FSM {
 				exists = true
 			}
 		}
+		// finish states (e.g. "canceled by timeout") are never a source of a
+		// transition, but a machine must still be restorable in them
+		if f.IsFinState(state) {
+			exists = true
+		}
 		if !exists {
 			panic(fmt.Sprintf("cannot set state, not exists  \"%s\" for \"%s\"", state, f.name))
 		}
@@ -456,6 +461,15 @@ func (f *FSM) StatesList() (states []State) {
 		}
 	}
 
+	return
+}
+
+// FinStatesList returns the finish states of the machine: the states that are
+// never a source of a transition.
+func (f *FSM) FinStatesList() (states []State) {
+	for state := range f.finStates {
+		states = append(states, state)
+	}
 	return
 }
 
